@@ -21,6 +21,15 @@ Three streams (all randomness from random.Random(ctx.seed ...)):
      all four dtypes (mixed within one operator), integer-valued payloads; compared EXACTLY with np.diag(to_dense, k)
      and with an independent int64 evaluation of the expression.
 
+Refusals (streams A, B-lean): an exception of the real call is an observation.  `refused-ok` is a THREE-WAY agreement on the
+exception CLASS: real raises X, the Lean code model answers error:X, and predicted_refusal — the rules of diag_trace.py read
+off the source as a decidable predicate on the input — gives X (with the reason, counted in the evidence).  The model's escape
+value `unmodelled:hutch` is accepted only under the input predicate hutch_reach (numel >= 1e11 at a generic node, alg != Exact;
+theorem C08_refusals_are_exceptions says it cannot occur otherwise); it is never generated.  The one recorded clause
+(`bdiag-zero-multiplicity`) is attributed per call by the input predicate rule_zero_mult and excuses the dtype observation only.
+The trees of the Lean witness theorems (C08_rules_witness, C08_trace_witness, C08_probing_witness) are corpus lines (`witness`):
+the real code must return the value stated in the theorem.
+
 Result dtype (three-way, in every stream where the real code runs): dtype of the returned array vs the Lean code
 model (Op.diagDt / Op.traceDt: which arrays are created with which dtype, NumPy promotion) vs the specification
 (Op.dtypeSpec: promotion of the leaf dtypes; cross-checked against numpy.result_type and the operator's .dtype).
